@@ -56,7 +56,7 @@ CALLS = {"get": ("get", "1.3.6.1.2.1.1.3.0"), "get_many": ("get_many", ["1.3.6.1
          "getnext1": ("getnext1", "1.3.6.1.2.1.2"), "getbulk1": ("getbulk1", "1.3.6.1.2.1.2", 4)}
 
 
-def execute(G, c):
+def execute(G, c, slow=False):
     cfg, E = c["cfg"], c["engine"]
     default_cfg = ag.Cfg("v3", user="", engine_id=b"")
     post_cfg = gen.cfg_from_json(gen.cfg_to_json(cfg))
@@ -168,7 +168,10 @@ def execute(G, c):
 
     plan = [("req", cl_, r_) for cl_, r_ in req_plan]
     calls = [p[1] for p in plan if p[0] == "req"]
-    kw = {"timeout": 0.15, "session_kw": {}}
+    # calls that are *expected* to time out (reject-only injections, lost probe) make a short timeout attractive; every other
+    # case gets a generous one, and a short-timeout case that fails on a timeout is re-run slowly before it is reported
+    needs_timeout = bool(c.get("lost_probe")) or any(r.get("only") and r.get("inject") for r in c["reqs"])
+    kw = {"timeout": (1.0 if slow else 0.15) if needs_timeout else 3.0, "session_kw": {}}
     if c["mode"] == "with":
         kw["use_with"] = True
         run_calls = calls
@@ -252,7 +255,14 @@ def run(rep, tier):
     rep.assumptions = ["keys of type 'localized' are derived by the caller for the agent's engine id", "reference crypto refusm.py"]
 
     def body(c):
-        nmsg, widths = execute(G, c)
+        try:
+            nmsg, widths = execute(G, c)
+        except core.Failure as f:
+            if "TimeoutError" in f.message and f.signature in ("request-failed", "message-count", "refresh-failed", "lost-probe-outcome"):
+                rep.count("timing_suspects_rerun_slowly")
+                nmsg, widths = execute(G, c, slow=True)
+            else:
+                raise
         nt = c["discovered"] and len(c["reqs"]) >= 2
         rep.case(repr(describe(c)), nt,
                  sample={"cfg": c["cfg"].describe(), "engine": c["engine"].hex(), "discovered": c["discovered"], "mode": c["mode"],
